@@ -168,7 +168,7 @@ func ruleC19Recursion(c *Checker) {
 						continue
 					}
 					pos = p.Pos(ci.Pos())
-					if isFieldOfOwnValueReceiver(ci.Common().Value, f) {
+					if isFieldOfOwnValueReceiver(ci.Common().Value, f) || p.isConstructionOnlyFieldOfReceiver(ci.Common().Value, f) {
 						desc++
 					} else {
 						allOK = false
@@ -180,7 +180,7 @@ func ruleC19Recursion(c *Checker) {
 				allOK, why = false, "cycle through function values only; no static recursive call to attach a bound to"
 			}
 		}
-		c.check(allOK, R, cyc, "cycle bound", pos, "every recursive call carries a recognised bound (counter, visited list, or structural descent into the receiver)", "unbounded recursion: "+why)
+		c.check(allOK, R, cyc, "cycle bound", pos, "every recursive call carries a recognised bound (counter, visited list, or structural descent into the receiver: a field of a value receiver, or a field of a pointer receiver that is only set where the struct is built)", "unbounded recursion: "+why)
 	}
 	// positive floor: the dereferencing code must still be recursive or iterative with a bound; if no cycle exists that is fine
 	if n == 0 {
@@ -266,6 +266,44 @@ func isFieldOfOwnValueReceiver(v ssa.Value, f *ssa.Function) bool {
 		}
 	}
 	return false
+}
+
+// isConstructionOnlyFieldOfReceiver: v is a field of f's pointer receiver, and
+// that field is only ever stored where the struct is built (a composite
+// literal: the store's base is an allocation of the same function). What it
+// holds therefore existed before the struct did, so following it descends —
+// the wrapped-error idiom `func (e *E) Error() string { return e.err.Error() }`.
+func (p *Prog) isConstructionOnlyFieldOfReceiver(v ssa.Value, f *ssa.Function) bool {
+	if len(f.Params) == 0 || f.Signature.Recv() == nil {
+		return false
+	}
+	recv := f.Params[0]
+	ld, ok := canon(v).(*ssa.UnOp)
+	if !ok || ld.Op != token.MUL {
+		return false
+	}
+	fa, ok := ld.X.(*ssa.FieldAddr)
+	if !ok || canon(fa.X) != ssa.Value(recv) || fieldOf(fa) == nil {
+		return false
+	}
+	fld := fieldOf(fa)
+	okAll := true
+	for _, g := range p.Funcs {
+		eachInstr(g, func(in ssa.Instruction) {
+			st, ok := in.(*ssa.Store)
+			if !ok {
+				return
+			}
+			f2, ok := st.Addr.(*ssa.FieldAddr)
+			if !ok || fieldOf(f2) != fld {
+				return
+			}
+			if al, isAlloc := f2.X.(*ssa.Alloc); !isAlloc || al.Parent() != g {
+				okAll = false
+			}
+		})
+	}
+	return okAll
 }
 
 // derivesFromParamOf: v is (a load/slice of) a parameter of a function in the cycle.
